@@ -249,7 +249,10 @@ pub trait ReadableVec<I: VecIndex, T: VecValue>: AnyVec {
     /// Collects values in `[from, to)` into a `Vec<T>` (object-safe).
     #[inline]
     fn collect_range_dyn(&self, from: usize, to: usize) -> Vec<T> {
-        let mut buf = Vec::with_capacity(to.saturating_sub(from));
+        // Bounds beyond the end are legal (they are clamped by the read): size the
+        // buffer for what can actually be returned, not for the requested span.
+        let len = self.len();
+        let mut buf = Vec::with_capacity(to.min(len).saturating_sub(from.min(len)));
         self.read_into_at(from, to, &mut buf);
         buf
     }
